@@ -222,7 +222,8 @@ fn exec(c: &Case, ps: &[Parent], rep: &mut Report) -> Option<(Value, String)> {
         let _ = std::fs::write(dir.join(n), stale_key_file());
     }
     let exe = cli::mlar_path("s");
-    let read_pair = |name: &str| -> Option<(Vec<u8>, Vec<u8>)> { Some((std::fs::read(dir.join(name)).ok()?, std::fs::read(dir.join(format!("{name}.pub"))).ok()?)) };
+    // a key file that is missing after a successful command is reported as an empty file (and so fails the comparisons)
+    let read_pair = |name: &str| -> Option<(Vec<u8>, Vec<u8>)> { Some((std::fs::read(dir.join(name)).unwrap_or_default(), std::fs::read(dir.join(format!("{name}.pub"))).unwrap_or_default())) };
     let check_pair = |what: &str, got: &(Vec<u8>, Vec<u8>), want: &(Vec<u8>, [u8; 32])| -> Option<(Value, String)> {
         if got.0 != want.0 {
             return Some((json!({"kind": "private_key_differs_from_documented_algorithm", "command": what}), format!("private key file {} != documented {}", hex::encode(&got.0), hex::encode(&want.0))));
